@@ -99,14 +99,14 @@ theorem inv_a {sp : Spec} {e : List Nat} (new : List Nat) {d : Db} {w : Writer} 
             rw [hg'] at hfail
             simp only [hc, Bool.true_and, Bool.not_eq_true', Bool.not_eq_false] at hfail
             simpa using hfail
-          · intro b hb; simp [hst] at hb
+          · intro b hb; simp at hb
         · simp only [hg, Bool.false_eq_true, if_false]
           refine ⟨h.rowId, h.seen, h.cmp, ?_, by show w.pc + 1 ≤ sp.reads; omega, ?_⟩
           · intro hle
             have hle : sp.lockGen ≤ w.pc + 1 := hle
             have hne : w.pc + 1 ≠ sp.lockGen := by simpa using hg
             exact h.have_ (by omega)
-          · intro b hb; simp [hst] at hb
+          · intro b hb; simp at hb
     · simp only [hpc, if_false]
       have hpc' : w.pc = sp.reads := by have := h.pcle; omega
       have hsome : w.lockSeen ≠ none := h.have_ (by omega)
